@@ -64,6 +64,9 @@ type SeqFile struct {
 	WriteQ bool     `json:"write_qseq"`      // values handed to the writer are *linear.QSeq
 	ReadQ  bool     `json:"read_qseq"`       // reader template is *linear.QSeq
 	Route  int      `json:"route,omitempty"` // how the reader is driven, see Source / GenRoute
+	// TmplCap > 0: the reader's template is empty but owns a buffer of that many letters (a caller that
+	// pre-allocated it, or emptied a used sequence with Seq[:0])
+	TmplCap int `json:"tmpl_cap,omitempty"`
 	Recs   []SeqRec `json:"recs"`
 }
 
@@ -298,6 +301,9 @@ func GenSeqFile(t *rapid.T, format string, maxRecs int, allowLong bool) SeqFile 
 	f.WriteQ = rapid.Bool().Draw(t, "write-qseq")
 	f.ReadQ = rapid.Bool().Draw(t, "read-qseq")
 	f.Route = GenRoute(t)
+	if rapid.IntRange(0, 3).Draw(t, "template-with-buffer") == 0 {
+		f.TmplCap = rapid.SampledFrom([]int{8, 64, 1024, 70000}).Draw(t, "template-cap")
+	}
 	f.Enc = int8(alphabet.Sanger)
 	if format == "fasta" {
 		f.Width = rapid.OneOf(rapid.IntRange(1, 200), rapid.SampledFrom([]int{1, 2, 60, 80, 4095, 4096, 4097, 5000, 10000}),
@@ -438,9 +444,17 @@ type ReadRec struct {
 func (f SeqFile) Template() seqio.SequenceAppender {
 	alpha := AlphabetByName(f.Alpha)
 	if f.ReadQ {
-		return linear.NewQSeq("", nil, alpha, alphabet.Encoding(f.Enc))
+		q := linear.NewQSeq("", nil, alpha, alphabet.Encoding(f.Enc))
+		if f.TmplCap > 0 {
+			q.Seq = make(alphabet.QLetters, 0, f.TmplCap)
+		}
+		return q
 	}
-	return linear.NewSeq("", nil, alpha)
+	l := linear.NewSeq("", nil, alpha)
+	if f.TmplCap > 0 {
+		l.Seq = make(alphabet.Letters, 0, f.TmplCap)
+	}
+	return l
 }
 
 // ReadLib parses data with the matching library reader until io.EOF. Every
